@@ -158,7 +158,14 @@ func (r *receiveHandler) receiveResponse(rpc *rpcResponseMessage) (err error) {
 		return newCallNotFoundError(rpc.SeqNo())
 	}
 
-	callResponseCh <- rpc
+	select {
+	case callResponseCh <- rpc:
+	default:
+		// The call's one-slot channel still holds an earlier response
+		// that its caller has not picked up: this one is a duplicate.
+		// Dropping it keeps the receive loop from blocking forever.
+		r.log.UnexpectedReply(rpc.SeqNo())
+	}
 	return nil
 }
 
